@@ -17,7 +17,7 @@ RULE = (
     "re-added next to other rows of its scaffold, or an output junction joins non-neighbours); distinct by SHA-1."
 )
 ASSUMPTIONS = [
-    "input scaffolds neither start nor end with a gap; between two contigs there are 0, 1 or (sub-check model) 2 gap rows",
+    "between two contigs of the input there are 0, 1 or (sub-check model) 2 gap rows; a third of the model inputs start / end with a gap row (FASTA with terminal N runs), which the output must not",
     "abutting collinear sub-fragments of one cut contig may be directly adjacent (they were contiguous sequence in the input)",
     "join gap = Gap(200, 'scaffold'), the value pretext-to-asm configures",
 ]
@@ -116,14 +116,16 @@ def body_perturbed(case, rec):
 def model_cases(draw):
     t = draw(gen.texel())
     style = draw(st.integers(0, 2))
-    inp = draw(gen.input_assembly(t, max_contigs=8, double_gaps=True))
+    inp = draw(gen.input_assembly(t, max_contigs=8, double_gaps=True, odd_gap_types=True, terminal_gaps=True))
     if style == 0:
         # trailing contigs shorter than a texel: append 1-3 tiny contigs to some scaffolds
         T = max(1, int(t))
         n = 1000
         for _name, rows in inp:
             if draw(st.booleans()):
-                fasta_shaped = rows[0][1] == _name
+                while rows[-1][0] == "G":
+                    rows.pop()
+                fasta_shaped = next(r for r in rows if r[0] == "F")[1] == _name
                 for _ in range(draw(st.integers(1, 3))):
                     n += 1
                     ln = draw(st.integers(1, max(1, T // 2)))
